@@ -1293,6 +1293,32 @@ func main() {
 			rep.Count("history-oracle-only(csv/tsv split is property C08's model):" + h.Mode)
 		}
 	}
+	// ---- part 6: a FIELD as the target of getline.  The text read is input ("getline var": a numeric string when it
+	// looks like a number, POSIX and gawk), whatever kind of lvalue receives it; it is compared with the same read into
+	// a variable.
+	{
+		in := "10.0\x1e1e1\x1e 10 \x1eabc\x1e0.0\x1e+5\x1e"
+		progOf := func(lv string) string {
+			return `BEGIN { RS = "\036"; while ((getline ` + lv + `) > 0) printf "%d%d%d ", (` + lv + ` == 10), (` + lv + ` < 9), !` + lv + ` }`
+		}
+		outOf := func(lv string) string {
+			rr := hx.RunAwk(progOf(lv), &interp.Config{Stdin: strings.NewReader(in), Environ: []string{}}, nil)
+			if rr.Panic != nil || rr.Err != nil {
+				return fmt.Sprintf("error %v %v", rr.Panic, rr.Err)
+			}
+			return string(rr.Out)
+		}
+		want := outOf("v")
+		for _, lv := range []string{"$2", "$(1 + 1)", "$7"} {
+			got := outOf(lv)
+			rep.SearchEvals++
+			rep.Count("getline-into-field")
+			if got != want {
+				rep.Fail(hx.Failure{Class: "field set by getline", Oracle: "text read by getline is a numeric string when it looks numeric, whatever lvalue receives it",
+					Detail: map[string]any{"kind": "getline-field", "program": progOf(lv), "input_hex": hx.HexS(in), "want (same read into a variable)": want, "got": got}})
+			}
+		}
+	}
 	flush()
 	rep.Write(o.Out)
 }
